@@ -15,6 +15,14 @@
 //!                return_addr return_reg
 //!   lifter       emitted fetch_endian store_bytes load_addr_bits store_addr_bits sweep_failed
 //!   judgements   sp_emitted cc_not_emitted preserved_and_trashed sp_preserved
+//!   queries      arg_types          argument_type(n) for n = 0 ..= (number of argument registers + 6):
+//!                                   `reg:<name>:<bits>` | `stack:<offset>`
+//!                stack_arg_offsets  the offsets of the stack answers among them, in order
+//!                is_preserved       `<name>:<bits>=yes|no|none` (Some(true)/Some(false)/None) for every probe register
+//!                is_trashed         the same for is_trashed
+//!                probes = preserved ∪ trashed ∪ argument registers ∪ return register ∪ return-address register ∪
+//!                stack pointer ∪ every scalar of the sweep ∪ the made-up register `c20_no_such_register`
+//!                (in neither set by construction), sorted
 //!
 //! Register sweep (all encodings are lifted with the real translator, `translate_block`, unsupported
 //! instructions are errors, and the scalars of the IL are collected with `fvh::lift::scalars_of`):
@@ -29,7 +37,7 @@
 //! translator decodes an instruction word (the store is encoded both ways; x86: the byte order of the
 //! immediate), (b) `store_bytes` — the bytes a lifted 32-bit store of 0x11223344 leaves in an executor memory
 //! built the way the loaders build it (`Memory::new(arch.endian())`), run with `fvh::lift::exec_btr`.
-use falcon::analysis::calling_convention::{CallingConvention, ReturnAddressType};
+use falcon::analysis::calling_convention::{ArgumentType, CallingConvention, ReturnAddressType};
 use falcon::architecture::{Architecture, Endian};
 use falcon::il::{self, Operation};
 use falcon::translator::BlockTranslationResult;
@@ -40,7 +48,7 @@ use std::collections::BTreeSet;
 
 type Reg = (String, usize);
 
-const FIELDS: [&str; 20] = [
+const FIELDS: [&str; 24] = [
     "endian",
     "word_size",
     "stack_pointer",
@@ -61,6 +69,10 @@ const FIELDS: [&str; 20] = [
     "cc_not_emitted",
     "preserved_and_trashed",
     "sp_preserved",
+    "arg_types",
+    "stack_arg_offsets",
+    "is_preserved",
+    "is_trashed",
 ];
 
 // ------------------------------------------------------------------------------------------ encodings
@@ -194,7 +206,20 @@ struct Desc {
     store_addr_bits: usize,
     sweep_ok: usize,
     sweep_failed: Vec<String>,
+    arg_types: Vec<ArgTy>,
+    is_preserved: Vec<(Reg, Option<bool>)>,
+    is_trashed: Vec<(Reg, Option<bool>)>,
 }
+
+#[derive(Clone, PartialEq)]
+enum ArgTy {
+    Reg(Reg),
+    Stack(usize),
+}
+
+/// how many answers beyond the argument registers are swept (n = 0 ..= registers + EXTRA_ARGS)
+const EXTRA_ARGS: usize = 6;
+const NO_SUCH_REGISTER: &str = "c20_no_such_register";
 
 fn reg_of(s: &il::Scalar) -> Reg {
     (s.name().to_string(), s.bits())
@@ -313,7 +338,32 @@ fn observe(name: &str) -> Desc {
         _ => "both".to_string(),
     };
     let load_addr_bits = lift_block(a.as_ref(), &p.load, 0x400000, &options(false)).map(|r| addr_bits(&r, false)).unwrap_or(0);
+    // the queries: argument_type(n), is_preserved(r), is_trashed(r)
+    let arg_types: Vec<ArgTy> = (0..=cc.argument_registers().len() + EXTRA_ARGS)
+        .map(|n| match cc.argument_type(n) {
+            ArgumentType::Register(s) => ArgTy::Reg(reg_of(&s)),
+            ArgumentType::Stack(o) => ArgTy::Stack(o),
+        })
+        .collect();
+    let mut probes: BTreeSet<Reg> = BTreeSet::new();
+    probes.extend(cc.preserved_registers().iter().map(reg_of));
+    probes.extend(cc.trashed_registers().iter().map(reg_of));
+    probes.extend(cc.argument_registers().iter().map(reg_of));
+    probes.insert(reg_of(cc.return_register()));
+    if let ReturnAddressType::Register(s) = cc.return_address_type() {
+        probes.insert(reg_of(s));
+    }
+    probes.insert(reg_of(&a.stack_pointer()));
+    probes.extend(emitted.iter().cloned());
+    probes.insert((NO_SUCH_REGISTER.to_string(), a.word_size()));
+    let is_preserved: Vec<(Reg, Option<bool>)> =
+        probes.iter().map(|r| (r.clone(), cc.is_preserved(&il::scalar(r.0.clone(), r.1)))).collect();
+    let is_trashed: Vec<(Reg, Option<bool>)> =
+        probes.iter().map(|r| (r.clone(), cc.is_trashed(&il::scalar(r.0.clone(), r.1)))).collect();
     Desc {
+        arg_types,
+        is_preserved,
+        is_trashed,
         name: a.name().to_string(),
         endian: endian_str(&a.endian()),
         word_size: a.word_size(),
@@ -346,6 +396,29 @@ fn regs_str(v: &[Reg]) -> String {
         "none".to_string()
     } else {
         v.iter().map(reg_str).collect::<Vec<_>>().join(" ")
+    }
+}
+
+fn arg_ty_str(t: &ArgTy) -> String {
+    match t {
+        ArgTy::Reg(r) => format!("reg:{}", reg_str(r)),
+        ArgTy::Stack(o) => format!("stack:{}", o),
+    }
+}
+
+fn tri(o: &Option<bool>) -> &'static str {
+    match o {
+        Some(true) => "yes",
+        Some(false) => "no",
+        None => "none",
+    }
+}
+
+fn answers_str(v: &[(Reg, Option<bool>)]) -> String {
+    if v.is_empty() {
+        "none".to_string()
+    } else {
+        v.iter().map(|(r, o)| format!("{}={}", reg_str(r), tri(o))).collect::<Vec<_>>().join(" ")
     }
 }
 
@@ -418,6 +491,21 @@ fn field(d: &Desc, f: &str) -> String {
             }
         }
         "sp_preserved" => yes(d.preserved.contains(&d.sp)),
+        "arg_types" => d.arg_types.iter().map(arg_ty_str).collect::<Vec<_>>().join(" "),
+        "stack_arg_offsets" => {
+            let v: Vec<String> = d
+                .arg_types
+                .iter()
+                .filter_map(|t| if let ArgTy::Stack(o) = t { Some(o.to_string()) } else { None })
+                .collect();
+            if v.is_empty() {
+                "none".to_string()
+            } else {
+                v.join(" ")
+            }
+        }
+        "is_preserved" => answers_str(&d.is_preserved),
+        "is_trashed" => answers_str(&d.is_trashed),
         _ => "bad-request".to_string(),
     }
 }
@@ -475,6 +563,23 @@ fn lean_regs(v: &[Reg]) -> String {
     out
 }
 
+fn lean_answers(v: &[(Reg, Option<bool>)]) -> String {
+    let mut out = String::from("[");
+    for (i, (r, o)) in v.iter().enumerate() {
+        if i > 0 {
+            out.push_str(if i % 4 == 0 { ",\n      " } else { ", " });
+        }
+        let o = match o {
+            Some(true) => "some true",
+            Some(false) => "some false",
+            None => "none",
+        };
+        out.push_str(&format!("({}, {})", lean_reg(r), o));
+    }
+    out.push(']');
+    out
+}
+
 fn lean_ident(name: &str) -> String {
     name.to_string()
 }
@@ -512,6 +617,19 @@ fn lean_table() -> String {
         s.push_str(&format!("  storeBytes := {}\n", lean_str(&d.store_bytes)));
         s.push_str(&format!("  loadAddrBits := {}\n", d.load_addr_bits));
         s.push_str(&format!("  storeAddrBits := {}\n", d.store_addr_bits));
+        s.push_str(&format!(
+            "  argTypes := [{}]\n",
+            d.arg_types
+                .iter()
+                .map(|t| match t {
+                    ArgTy::Reg(r) => format!(".reg {}", lean_reg(r)),
+                    ArgTy::Stack(o) => format!(".stack {}", o),
+                })
+                .collect::<Vec<_>>()
+                .join(", ")
+        ));
+        s.push_str(&format!("  isPreserved := {}\n", lean_answers(&d.is_preserved)));
+        s.push_str(&format!("  isTrashed := {}\n", lean_answers(&d.is_trashed)));
         s.push_str(&format!(
             "  sweepFailed := [{}]\n\n",
             d.sweep_failed.iter().map(|x| lean_str(x)).collect::<Vec<_>>().join(", ")
